@@ -1,5 +1,7 @@
 import LoguruModel.Context.Scope
-import LoguruModel.Context.Heap
+import LoguruModel.Context.HeapLemmas
+import LoguruModel.Context.Kwargs
+import LoguruModel.Context.Multi
 /-
 C12 – property theorems (only the theorems and their non-vacuity examples live here).
 The operand orders (`Gen.recordLayers`, `Gen.bindOperands`, `Gen.ctxOperands`, `Gen.patchOperands`),
@@ -400,6 +402,149 @@ theorem configure_alias_refuted (heap heap' : Nat → Assoc K V) (ref : Nat) (h 
     readBase heap' (configureBase false heap ref) ≠ heap ref := by
   simpa [configureBase, readBase] using h
 
+/-! ### several cores: `copy.deepcopy(logger)` – separate core state, ONE context variable
+
+`Context/Multi.lean`: an operation through a logger of core `i` is the single-core `step` on the shared part
+(context variable, open blocks, event log) + the fields of core `i`. -/
+
+/-- `context_shared_by_all_cores`: after ANY trace over ANY number of cores (loggers deep-copied at any
+moment, blocks entered through loggers of any core, in any interleaving of contexts), the context layer a
+logging call in context `c` sees through a logger of ANY core `k` is, key by key, the innermost open block of
+`c` naming the key – entered through whichever logger – else what `c` inherited at its creation. -/
+theorem context_shared_by_all_cores (papply : P → Assoc K V → Assoc K V) (truthy : P → Bool)
+    (t : List (Nat × MOp K V P)) (k : CoreSt K V P) (c : Nat) (key : K) :
+    let m := mrun papply (minit truthy) t
+    get? (ctxGet (withCore m.shared k) c) key =
+      orElse (firstSome ((m.shared.stacks c).map (fun f => get? f.kw key)))
+        (get? ((m.shared.bases c).getD []) key) := by
+  intro m
+  have hI : Inv m.shared := inv_mrun papply t _ (inv_initT truthy)
+  show get? ((ContextVars.get m.shared.cv c).getD []) key = _
+  unfold ContextVars.get
+  rw [hI.value c, stackValue_lookup]
+
+/-- `cores_independent`: whatever is done through core `i` – configure(extra=, patcher=), add/remove handlers,
+bind/opt/patch, logging – leaves every other core (its extra, patcher, handlers, loggers) as it was; and a
+`deepcopy` changes no existing core. -/
+theorem cores_independent (papply : P → Assoc K V → Assoc K V) (m : MState K V P) (c i j : Nat)
+    (op : Op K V P) (hij : j ≠ i) (hj : j < m.cores.length) :
+    (mstep papply m c (.on i op)).cores[j]? = m.cores[j]? ∧
+    (∀ l, (mstep papply m c (.deepcopy i l)).cores[j]? = m.cores[j]?) := by
+  constructor
+  · simp only [mstep]
+    split
+    · rfl
+    · simp [List.getElem?_set_ne (Ne.symm hij)]
+  · intro l
+    simp only [mstep]
+    split
+    · rfl
+    · split
+      · rfl
+      · simp [List.getElem?_append_left hj]
+
+/-- `deepcopy_spec`: the copy is a NEW core with the source core's extra, patcher and handlers as they are at
+that moment and one logger with the source logger's options; the shared part (context variable, open blocks,
+delivered records) is untouched. -/
+theorem deepcopy_spec (papply : P → Assoc K V → Assoc K V) (m : MState K V P) (c i l : Nat)
+    (k : CoreSt K V P) (o : Opts K V P) (hk : m.cores[i]? = some k) (ho : k.loggers[l]? = some o) :
+    let m' := mstep papply m c (.deepcopy i l)
+    m'.cores = m.cores ++ [{ k with loggers := [o] }] ∧ m'.shared = m.shared := by
+  simp [mstep, hk, ho]
+
+/-- a logging call through logger `l` of core `i`: the single-core layering / patcher-order theorem with core
+`i`'s extra, patcher and handlers and the SHARED context layer of the calling context -/
+theorem multi_core_log (papply : P → Assoc K V → Assoc K V) (m : MState K V P) (c i l : Nat)
+    (k : CoreSt K V P) (o : Opts K V P) (kw : Assoc K V) (hk : m.cores[i]? = some k)
+    (ho : k.loggers[l]? = some o) (hh : k.handlers ≠ []) :
+    (mstep papply m c (.on i (.log l kw))).shared.out = m.shared.out ++
+      ((runPatchers papply c (coreCalled (withCore m.shared k) ++ o.patchers)
+          (buildExtra k.coreExtra (ctxGet m.shared c) o.extra kw o.flags.capture)).1 ++
+        k.handlers.map (fun h => Event.delivered c h
+          (applyAll papply (coreCalled (withCore m.shared k) ++ o.patchers)
+            (buildExtra k.coreExtra (ctxGet m.shared c) o.extra kw o.flags.capture)))) := by
+  have hl : (withCore m.shared k).loggers[l]? = some o := ho
+  have he : (withCore m.shared k).handlers.isEmpty = false := by
+    show k.handlers.isEmpty = false
+    cases h : k.handlers <;> simp_all
+  simp only [mstep, hk, step, hl, he]
+  rw [log_extra_layering]
+  rfl
+
+/-- no multi-core trace makes `context.reset(token)` fail: the token of a block entered through a logger of one
+core is reset correctly whichever loggers and cores were used in between -/
+theorem multi_core_exit_never_raises (papply : P → Assoc K V → Assoc K V) (truthy : P → Bool)
+    (t : List (Nat × MOp K V P)) :
+    ∀ e ∈ (mrun papply (minit truthy : MState K V P) t).shared.out, e.isError = false := by
+  have gen : ∀ (t : List (Nat × MOp K V P)) (m : MState K V P), Inv m.shared →
+      (∀ e ∈ m.shared.out, e.isError = false) → ∀ e ∈ (mrun papply m t).shared.out, e.isError = false := by
+    intro t
+    induction t with
+    | nil => intro m _ hE; exact hE
+    | cons e t ih =>
+      intro m hI hE
+      refine ih _ (inv_mstep papply m e.1 e.2 hI) ?_
+      rcases e with ⟨c, op⟩
+      cases op with
+      | on i op =>
+        simp only [mstep]
+        split
+        · exact hE
+        · next k hk => exact step_no_error papply (withCore m.shared k) c op (inv_withCore _ _ hI) hE
+      | deepcopy i l =>
+        simp only [mstep]
+        split
+        · exact hE
+        · split <;> exact hE
+  exact gen t _ (inv_initT truthy) (by intro e he; cases he)
+
+/-! ### keyword arguments of the logging call: lazy evaluation, capture, `record` injection
+
+`Context/Kwargs.lean` interprets the three statements of `_log` in their regenerated order `Gen.kwStages`. -/
+
+/-- `kwargs_captured_as_passed`: without `lazy`, the kwargs layer put into `extra` is exactly the caller's
+keyword arguments – the functional model's `merge e kw if capture` – whatever `record` is: the record dict
+that `opt(record=True)` adds to kwargs is added AFTER the capture. -/
+theorem kwargs_captured_as_passed (capture record : Bool) (recKey : K) (extra0 kw : Assoc K (Slot V)) :
+    (kwPipeline false capture record recKey extra0 kw).extra = (if capture then merge extra0 kw else extra0) ∧
+    (kwPipeline false capture record recKey extra0 kw).forced = [] := by
+  cases capture <;> cases record <;> cases kw <;>
+    simp [kwPipeline, Gen.kwStages, List.foldl, kwStage, merge_nil_right]
+
+/-- `lazy_kwargs_called_once_before_capture`: with `opt(lazy=True)` every keyword argument is a callable; each
+is called exactly once, in order, BEFORE the capture: `extra` receives the values returned, never the callables. -/
+theorem lazy_kwargs_called_once_before_capture (capture record : Bool) (recKey : K) (extra0 : Assoc K (Slot V))
+    (kw0 : Assoc K V) :
+    let r := kwPipeline true capture record recKey extra0 (kw0.map (fun kv => (kv.1, Slot.thunk kv.2)))
+    r.forced = kw0.map (fun kv => kv.1) ∧
+    r.extra = (if capture then merge extra0 (kw0.map (fun kv => (kv.1, Slot.value kv.2))) else extra0) := by
+  cases capture <;> cases record <;> cases kw0 <;>
+    simp [kwPipeline, Gen.kwStages, List.foldl, kwStage, merge_nil_right, Slot.force, Function.comp_def]
+
+/-- `record_never_captured`: whatever the options, the record dict never becomes a value of its own `extra`
+(no self-referencing record, nothing for `serialize` / `repr(extra)` to loop on) unless the caller put it there. -/
+theorem record_never_captured (lazy capture record : Bool) (recKey : K) (extra0 kw : Assoc K (Slot V))
+    (h0 : ∀ kv ∈ extra0, kv.2 ≠ Slot.record) (h1 : ∀ kv ∈ kw, kv.2 ≠ Slot.record) :
+    ∀ kv ∈ (kwPipeline lazy capture record recKey extra0 kw).extra, kv.2 ≠ Slot.record := by
+  have hforce : ∀ kv ∈ kw.map (fun kv => (kv.1, kv.2.force)), kv.2 ≠ Slot.record := by
+    intro kv hkv
+    simp only [List.mem_map] at hkv
+    obtain ⟨x, hx, rfl⟩ := hkv
+    have := h1 x hx
+    cases hx2 : x.2 <;> simp_all [Slot.force]
+  have hm : ∀ (b : Assoc K (Slot V)), (∀ kv ∈ b, kv.2 ≠ Slot.record) →
+      ∀ kv ∈ merge extra0 b, kv.2 ≠ Slot.record := by
+    intro b hb kv hkv
+    rcases merge_vals extra0 b kv hkv with ⟨x, hx, e⟩ | ⟨x, hx, e⟩
+    · rw [← e]; exact h0 x hx
+    · rw [← e]; exact hb x hx
+  cases lazy <;> cases capture <;> cases record <;>
+    simp only [kwPipeline, Gen.kwStages, List.foldl, kwStage, Bool.false_and, Bool.true_and, if_true,
+      Bool.false_eq_true, if_false] <;>
+    first
+    | exact h0
+    | (split <;> first | exact h0 | exact hm _ h1 | exact hm _ hforce)
+
 /-! ### object identity: no aliasing between loguru's containers and what patchers, sinks and the caller reach
 
 `Context/Heap.lean`: every dict is a heap cell; `core.extra`, the ContextVar's default, every value handed to
@@ -522,5 +667,16 @@ example :
     s.loggers = [(true, 2), (true, 5), (false, 5)] ∧ Heap.cell s.heap 5 = [(2, 20)] ∧
     s.records = [8, 9] ∧ Heap.cell s.heap 8 = [] ∧ Heap.cell s.heap 9 = [(1, 10), (3, 30), (2, 20)] := by
   decide
+
+/-- two cores: a block entered through the ORIGINAL logger is seen by the deep copy; configure on the copy does
+not reach the original -/
+example :
+    let t : List (Nat × MOp Nat Nat Nat) :=
+      [(0, .on 0 .addHandler), (0, .on 0 (.configure (some [(1, 10)]) none)), (0, .on 0 (.bind 0 [(2, 20)])),
+       (0, .on 0 (.enter [(3, 30)])), (0, .deepcopy 0 1), (0, .on 1 (.configure (some [(1, 11)]) none)),
+       (0, .on 1 (.log 0 [])), (0, .on 0 (.log 0 [])), (0, .on 0 .exit), (0, .on 1 (.log 0 []))]
+    (mrun (fun _ x => x) (minit (fun _ => true) : MState Nat Nat Nat) t).shared.out =
+      [.delivered 0 0 [(1, 11), (3, 30), (2, 20)], .delivered 0 0 [(1, 10), (3, 30)],
+       .delivered 0 0 [(1, 11), (2, 20)]] := by rfl
 
 end C12
